@@ -144,6 +144,44 @@ fn pa126_obs(variant: &str, req: i32, rf: Option<u32>) -> String {
     .unwrap_or_else(|| "PANIC".into())
 }
 
+/// The same question asked of a driver with a HISTORY: one driver instance goes through the public
+/// `LoRa` API — bring-up, `sleep(false)` (a cold sleep: the chip forgets its PA configuration and TX
+/// parameters), then `prepare_for_tx(req)`. The chip transmits with what was programmed SINCE the
+/// last cold SetSleep (or reset); a driver that remembers "already programmed" across the loss
+/// leaves the chip with nothing (`not-programmed`). `warm` = 1 asks for a warm sleep instead.
+fn pa126s_obs(variant: &str, req: i32, rf: u32, warm: bool) -> String {
+    let variant = variant.to_string();
+    guarded(move || {
+        let bus = Bus::new(Proto::Sx126x, 0x00);
+        let m = mp(rf);
+        async fn hist<RK: RadioKind>(rk: RK, m: &ModulationParams, req: i32, warm: bool) -> Result<(), RadioError> {
+            let mut lora = LoRa::new(rk, true, NoDelay).await?;
+            lora.sleep(warm).await?;
+            let mut pkt = lora.create_tx_packet_params(8, false, true, false, m)?;
+            lora.prepare_for_tx(m, &mut pkt, req, &[1, 2, 3, 4]).await
+        }
+        let r = match variant.as_str() {
+            "sx1261" => block_on(hist(sx126x(&bus, lora_phy::sx126x::Sx1261, false), &m, req, warm)),
+            "sx1262" => block_on(hist(sx126x(&bus, lora_phy::sx126x::Sx1262, false), &m, req, warm)),
+            "stm32wl-lp" => block_on(hist(sx126x(&bus, lora_phy::sx126x::Stm32wl { use_high_power_pa: false }, false), &m, req, warm)),
+            "stm32wl-hp" => block_on(hist(sx126x(&bus, lora_phy::sx126x::Stm32wl { use_high_power_pa: true }, false), &m, req, warm)),
+            _ => return "bad-op".to_string(),
+        };
+        if r.is_err() {
+            return "ERR".into();
+        }
+        let b = bus.borrow();
+        // index of the last loss of chip configuration: SetSleep (0x84) without the warm-start bit
+        let lost = b.log.iter().rposition(|t| t.first() == Some(&0x84) && t.get(1).map(|x| x & 0x04 == 0).unwrap_or(true)).map(|i| i + 1).unwrap_or(0);
+        let after = |op: u8| b.log[lost..].iter().rev().find(|t| t.first() == Some(&op)).cloned();
+        match (after(0x95), after(0x8E)) {
+            (Some(pa), Some(tx)) if pa.len() == 5 && tx.len() == 3 => format!("{},{},{},{}", pa[1], pa[2], pa[3], tx[1] as i8),
+            _ => "not-programmed".into(),
+        }
+    })
+    .unwrap_or_else(|| "PANIC".into())
+}
+
 fn pa127_obs(chip: &str, boost: bool, req: i32) -> String {
     let chip = chip.to_string();
     guarded(move || {
@@ -437,6 +475,10 @@ pub fn eval(op: &str) -> String {
             let rf = rf.parse::<u32>().ok();
             pa126_obs(variant, req, rf)
         }
+        ["C17", "pa126s", variant, req, rf, warm, ..] => {
+            let (Ok(req), Ok(rf), Ok(warm)) = (req.parse::<i32>(), rf.parse::<u32>(), warm.parse::<u8>()) else { return "bad-op".into() };
+            pa126s_obs(variant, req, rf, warm != 0)
+        }
         ["C17", "pa127", chip, boost, req, ..] => {
             let (Ok(req), Ok(boost)) = (req.parse::<i32>(), boost.parse::<u8>()) else { return "bad-op".into() };
             pa127_obs(chip, boost != 0, req)
@@ -531,6 +573,7 @@ pub fn expand(op: &str) -> Vec<String> {
             let nargs = match *kind {
                 "pa126" => 3,
                 "pa127" => 3,
+                "pa126s" => 4,
                 "symb126" => 1,
                 "symb127" => 3,
                 "rxsym" => 3,
@@ -671,6 +714,19 @@ pub fn run(tier: &str, seed: u64, dir: &str) {
                 let (op, a) = with_obs(format!("C17 pa126 {} {} {}", variant, req, rf.map(|f| f.to_string()).unwrap_or("-".into())));
                 let class = if a == "ERR" { format!("pa-{}-refused", variant) } else { format!("pa-{}", variant) };
                 sink.case(&op, &a, &class, true);
+            }
+        }
+    }
+    // the same requests put to ONE driver instance after bring-up and a cold (or warm) sleep: the
+    // power programmed since the chip last lost its configuration must still be the clamp
+    for variant in ["sx1261", "sx1262", "stm32wl-lp", "stm32wl-hp"] {
+        for rf in [169_400_000u32, 868_100_000, 915_000_000] {
+            for req in (-20..=30).chain([-200, -128, 127, 200]) {
+                for warm in [0, 1] {
+                    let (op, a) = with_obs(format!("C17 pa126s {} {} {} {}", variant, req, rf, warm));
+                    let class = if a == "ERR" { format!("pa-after-sleep-{}-refused", variant) } else { format!("pa-after-sleep-{}", variant) };
+                    sink.case(&op, &a, &class, true);
+                }
             }
         }
     }
